@@ -15,12 +15,83 @@ const pmPkg = "pkg/network/portmapping"
 // isBufferNamed: v is the local *bytes.Buffer created by the k-th bytes.NewBuffer call? we identify buffers by value.
 func writeLinesTo(fn *ssa.Function, buf ssa.Value) []ssa.CallInstruction {
 	var out []ssa.CallInstruction
-	for _, w := range calls(fn, pmPkg+".writeLine") {
+	for _, w := range callsLocal(fn, pmPkg+".writeLine") {
 		if w.Common().Args[0] == buf {
 			out = append(out, w)
 		}
 	}
+	// a same-package helper that is handed the buffer and writes a line to it on every path counts as a write
+	allInstrs(fn, func(in ssa.Instruction) {
+		call, ok := in.(*ssa.Call)
+		if !ok {
+			return
+		}
+		h := helperOf(call, nil)
+		if h == nil || nameMatch(fnNameForMatch(h), pmPkg+".writeLine") {
+			return
+		}
+		for i, a := range call.Call.Args {
+			if a != buf || i >= len(h.Params) {
+				continue
+			}
+			var ws []ssa.CallInstruction
+			for _, w := range callsLocal(h, pmPkg+".writeLine") {
+				if sameParam(w.Common().Args[0], h.Params[i]) {
+					ws = append(ws, w)
+				}
+			}
+			if len(ws) == 0 {
+				continue
+			}
+			r := reachFromEntry(h, newCut().callInstrs(ws))
+			always := true
+			for _, ret := range returns(h) {
+				if r.has(ret) {
+					always = false
+				}
+			}
+			if always {
+				out = append(out, call)
+			}
+		}
+	})
 	return out
+}
+
+// chainLineBuffer: the buffer that receives the MakeChainLine lines of fn (directly or through a helper handed the buffer)
+func chainLineBuffer(fn *ssa.Function) ssa.Value {
+	for _, w := range callsLocal(fn, pmPkg+".writeLine") {
+		for _, v := range varargValues(w) {
+			if isResultOf(v, 0, "MakeChainLine") {
+				return w.Common().Args[0]
+			}
+		}
+	}
+	var buf ssa.Value
+	allInstrs(fn, func(in ssa.Instruction) {
+		call, ok := in.(*ssa.Call)
+		if !ok || buf != nil {
+			return
+		}
+		h := helperOf(call, nil)
+		if h == nil {
+			return
+		}
+		for _, w := range callsLocal(h, pmPkg+".writeLine") {
+			for _, v := range varargValues(w) {
+				if isResultOf(v, 0, "MakeChainLine") {
+					if p, ok := unspill(w.Common().Args[0]).(*ssa.Parameter); ok {
+						for i, q := range h.Params {
+							if q == p && i < len(call.Call.Args) {
+								buf = call.Call.Args[i]
+							}
+						}
+					}
+				}
+			}
+		}
+	})
+	return buf
 }
 
 // variadic string constants of a call: constants stored into the varargs array
@@ -87,9 +158,11 @@ func ruleHostPorts(c *Ctx, rule string) {
 	if fn := c.MustFn(rule, pmPkg, "(*PortMappingHandler).OpenHostports"); fn != nil {
 		open := calls(fn, pmPkg+".openLocalPort")
 		var closes []ssa.CallInstruction
-		allInstrs(fn, func(in ssa.Instruction) {
+		allInstrsX(fn, func(in ssa.Instruction) { // the close loop may live in a helper of OpenHostports
 			if call, ok := in.(ssa.CallInstruction); ok && call.Common().IsInvoke() && call.Common().Method.Name() == "Close" {
-				closes = append(closes, call)
+				if call.Parent() == fn || call.Parent().Name() != "CloseHostports" {
+					closes = append(closes, call)
+				}
 			}
 		})
 		var rec []ssa.Instruction
@@ -242,7 +315,7 @@ func ruleHostPorts(c *Ctx, rule string) {
 		if fn.Pkg.Pkg.Path() != modPath+pmPkg {
 			continue
 		}
-		for _, w := range calls(fn, pmPkg+".writeLine") {
+		for _, w := range callsLocal(fn, pmPkg+".writeLine") {
 			cs := varargConsts(w)
 			if !contains(cs, "-X") {
 				continue
@@ -267,6 +340,8 @@ func ruleHostPorts(c *Ctx, rule string) {
 					lk, isL := v.(*ssa.Lookup)
 					return isL && types.Identical(lk.Type(), types.Typ[types.Bool])
 				})))
+				// the set of active chains may be a map[Chain]bool or a sets.String
+				inactive = append(inactive, guardEdges(fn, negate(predCall("sets.String).Has", nil)))...)
 				ok = guardedBy(fn, w, pre) && guardedBy(fn, w, inactive)
 			}
 			c.ob(rule, fn, "-X only for a galaxy host-port chain", w, ok, "the deleted chain is a hostportChainName(..) result, or the line is reachable only through HasPrefix(chain, \"KUBE-HP-\") and the not-active edge")
@@ -283,14 +358,7 @@ func ruleHostPorts(c *Ctx, rule string) {
 		restore := calls(fn, "Interface).RestoreAll")
 		if len(hn) == 1 && len(rules) >= 1 && len(jump) >= 1 && len(restore) == 1 {
 			// the chains buffer is the first argument of the writeLine that receives MakeChainLine
-			var chainsBuf ssa.Value
-			for _, w := range calls(fn, pmPkg+".writeLine") {
-				for _, v := range varargValues(w) {
-					if isResultOf(v, 0, "MakeChainLine") {
-						chainsBuf = w.Common().Args[0]
-					}
-				}
-			}
+			chainsBuf := chainLineBuffer(fn)
 			okAll := chainsBuf != nil
 			if okAll {
 				for _, must := range [][]ssa.CallInstruction{rules, jump, writeLinesTo(fn, chainsBuf)} {
@@ -449,7 +517,16 @@ func rulePortTeardownAndResync(c *Ctx, rule string) {
 						okAll = false
 					}
 				case *ssa.Call:
-					// results of calls (json.Unmarshal error, len) depend on their arguments
+					// results of calls (json.Unmarshal error, len) depend on their arguments; the result of a same-package
+					// helper (the skip decision extracted into `ports, ok := startupPortsOf(pod)`) depends on every
+					// branch condition of that helper
+					if h := helperOf(y, nil); h != nil && d < 6 {
+						for _, b := range h.Blocks {
+							if iff, ok := b.Instrs[len(b.Instrs)-1].(*ssa.If); ok {
+								walk(iff.Cond, d+1)
+							}
+						}
+					}
 				}
 				for _, o := range operandsOf(x) {
 					walk(o, d+1)
@@ -500,6 +577,6 @@ func rulePortTeardownAndResync(c *Ctx, rule string) {
 				bad = c.instrPos(ifi)
 			}
 		}
-		c.ob(rule, fn, "the restart sync skips a pod only for lack of an ip, host networking or an undecodable annotation", op[0], bad == "" && n >= 2, fmt.Sprintf("%d branch conditions can skip OpenHostports for a pod; each depends only on Status.PodIP, Spec.HostNetwork, the annotations or a decode error %s", n, bad))
+		c.ob(rule, fn, "the restart sync skips a pod only for lack of an ip, host networking or an undecodable annotation", op[0], bad == "" && n >= 1, fmt.Sprintf("%d branch conditions can skip OpenHostports for a pod; each depends only on Status.PodIP, Spec.HostNetwork, the annotations or a decode error %s", n, bad))
 	}
 }
